@@ -829,6 +829,25 @@ fn make_limit(rng: &mut StdRng, cache: &mut BigCache, shape: &str, bits: u32) ->
                 n
             }
         }
+        // the largest numbers of a word size that survive trial division: p * q with p a 3..4-digit prime and q the
+        // largest prime with p q < 2^bits (within ~2^20 of the word boundary: k n, n + r and isqrt(k n) at their extremes)
+        "topword" => {
+            let p = loop {
+                let c = rng.gen_range(211u64..8000) | 1;
+                if is_prime_u64(c) {
+                    break c;
+                }
+            };
+            let top: u128 = (1u128 << bits) - 1;
+            let mut q = (top / p as u128) as u64;
+            if q % 2 == 0 {
+                q -= 1;
+            }
+            while !is_prime_u64(q) {
+                q -= 2;
+            }
+            Uint::from(p) * Uint::from(q)
+        }
         "bigprime" => cache.prime(rng, bits),
         // above the limit *after* trial division: no prime factor below 200
         "over_random" => loop {
@@ -864,12 +883,12 @@ pub fn works_from_shapes(shapes: &[Value], seed: u64, salt: &str, reps: u64, poo
         let alg = sh["alg"].as_str().unwrap();
         let deterministic = matches!(shape, "zero" | "one" | "two" | "pow2" | "ones" | "over_pow2");
         // shapes whose interesting branch is only taken on a fraction of the inputs get more instances
-        let reps = if (shape == "p3q" && matches!(alg, "qs" | "mpqs" | "siqs")) || shape == "sp2q" { 4 * reps } else { reps };
+        let reps = if (shape == "p3q" && matches!(alg, "qs" | "mpqs" | "siqs")) || shape == "sp2q" || shape == "topword" { 4 * reps } else { reps };
         // volume: plain semiprimes in numbers, for branches that depend on arithmetic accidents of n (which multiplier
         // scores best, which primes land in the factor base) and are taken by a fraction of a percent of the inputs
         let (shape, reps) = if shape == "pqvol" { ("pq", 240 * reps) } else { (shape, reps) };
         for rep in 0..(if deterministic { 1 } else { reps }) {
-            let (n, primes) = if matches!(shape, "qP" | "bigprime" | "sp2q") || shape.starts_with("over_") {
+            let (n, primes) = if matches!(shape, "qP" | "bigprime" | "sp2q" | "topword") || shape.starts_with("over_") {
                 (make_limit(&mut rng, &mut cache, shape, bits), None)
             } else {
                 make_n(&mut rng, pool, shape, bits)
